@@ -962,10 +962,17 @@ class ConcRun(object):
             g0 = set(i for i in succ
                      for c, g in carried_consumer_gens(batch[i]).items()
                      if g is not None and c not in self.state0['cons'])
+            # ... and the guarded provider writes that carried a generation
+            # the provider only reached through such a success (a "future"
+            # generation at the start): in a serial order they fall with it
+            future = set(i for i in succ
+                         for u, g in carried_provider_gens(batch[i]).items()
+                         if g != self.state0['prov'].get(u))
             if root:
                 for order, st, core in serial_seen:
                     bad = set(i for i, x in st.items() if x >= 400)
-                    if bad and bad <= g0 and all(st[i] == 409 for i in bad):
+                    if bad and bad & g0 and bad <= (g0 | future) and \
+                            all(st[i] == 409 for i in bad):
                         cls = 'generation-0-matched-transient-consumer'
                         tags = {'C07'}
                         break
